@@ -82,6 +82,12 @@ func (lex *Lexer) readToken() []*token.Token {
 		return lex.readSymbol()
 	case ';':
 		lex.scanner.AcceptSeq(func(c rune) bool { return c != '\n' })
+		if lex.scanner.Overrun() {
+			// The comment does not fit the scanner's window.  Emitting
+			// what was accepted would leave the rest of the line to be
+			// lexed as code.
+			return lex.errorf("comment exceeds maximum token size")
+		}
 		return lex.emitText(token.COMMENT)
 	case '#':
 		_ = lex.readChar()
@@ -263,6 +269,9 @@ func (lex *Lexer) charToken(typ token.Type) []*token.Token {
 func (lex *Lexer) readHashBang() []*token.Token {
 	lex.resetState()
 	lex.scanner.AcceptSeq(func(c rune) bool { return c != '\n' })
+	if lex.scanner.Overrun() {
+		return lex.errorf("comment exceeds maximum token size")
+	}
 	return lex.emitText(token.COMMENT)
 }
 
@@ -398,18 +407,19 @@ func trailingBackslashes(s string) int {
 }
 
 func (lex *Lexer) skipWhitespace() {
-	if lex.scanner.AcceptSeqSpace() > 0 {
+	lex.precedingNewlines = 0
+	lex.precedingSpaces = 0
+	// White space is no token: a run longer than the scanner's window is
+	// skipped a window at a time.
+	for lex.scanner.AcceptSeqSpace() > 0 {
 		text := lex.scanner.Text()
-		lex.precedingNewlines = strings.Count(text, "\n")
+		lex.precedingNewlines += strings.Count(text, "\n")
 		if lex.precedingNewlines == 0 {
-			lex.precedingSpaces = len(text)
+			lex.precedingSpaces += len(text)
 		} else {
 			lex.precedingSpaces = 0
 		}
 		lex.scanner.Ignore()
-	} else {
-		lex.precedingNewlines = 0
-		lex.precedingSpaces = 0
 	}
 }
 
